@@ -364,6 +364,79 @@ pub fn extension_relocate(d: &[u8], gpos: bool, a: usize, b: usize) -> Option<Ve
     Some(out)
 }
 
+/// A format 0 `name` table (Windows Unicode BMP/full records, UTF-16BE) with long names.
+pub fn build_names(variant: u64) -> Vec<u8> {
+    struct X(u64);
+    impl X {
+        fn next(&mut self) -> u64 {
+            self.0 ^= self.0 << 13;
+            self.0 ^= self.0 >> 7;
+            self.0 ^= self.0 << 17;
+            self.0
+        }
+    }
+    let mut x = X(variant.wrapping_mul(0x9E37_79B9_7F4A_7C15) | 1);
+    let alphabets: [&[char]; 5] = [
+        &['A', 'b', 'C', 'd', 'e', 'F', '1', '2'],
+        &['Ж', 'и', 'в', 'о', 'п', 'и', 'с', 'ь'],
+        &['明', '朝', '体', '黒', '字'],
+        &['𝐀', '𝐁', '😀', '𐐷'],
+        &['é', 'ß', 'ø', 'A', 'z', '-', ' ', 'Ω'],
+    ];
+    fn make(x: &mut X, alphabets: &[&[char]; 5], len: usize) -> String {
+        let a = alphabets[(x.next() % 5) as usize];
+        let ascii_prefix = (x.next() % 4) as usize; // shifts the byte alignment of what follows
+        let mut s: String = "Xy0".chars().take(ascii_prefix).collect();
+        for _ in 0..len {
+            // mostly the chosen alphabet, sometimes ASCII in between
+            if x.next() % 6 == 0 {
+                s.push((b'a' + (x.next() % 26) as u8) as char);
+            } else {
+                s.push(a[(x.next() % a.len() as u64) as usize]);
+            }
+        }
+        s
+    }
+    let lens = [3usize, 20, 31, 32, 33, 40, 63, 64, 70, 130];
+    let mut names: Vec<(u16, String)> = Vec::new();
+    for id in [1u16, 2, 3, 4, 6, 16, 17, 25, 256, 257, 258, 259] {
+        let l = match id {
+            1 | 16 | 25 => lens[(x.next() % lens.len() as u64) as usize],
+            _ => 4 + (x.next() % 12) as usize,
+        };
+        // not every id is present in every variant
+        if matches!(id, 16 | 17 | 25) && x.next() % 3 == 0 {
+            continue;
+        }
+        let name = make(&mut x, &alphabets, l);
+        names.push((id, name));
+    }
+    let mut storage: Vec<u8> = Vec::new();
+    let mut recs: Vec<u8> = Vec::new();
+    for (id, s) in &names {
+        let bmp = s.chars().all(|c| (c as u32) < 0x10000);
+        let off = storage.len();
+        for u in s.encode_utf16() {
+            storage.extend_from_slice(&u.to_be_bytes());
+        }
+        let len = storage.len() - off;
+        recs.extend_from_slice(&3u16.to_be_bytes());
+        recs.extend_from_slice(&(if bmp { 1u16 } else { 10 }).to_be_bytes());
+        recs.extend_from_slice(&0x0409u16.to_be_bytes());
+        recs.extend_from_slice(&id.to_be_bytes());
+        recs.extend_from_slice(&(len as u16).to_be_bytes());
+        recs.extend_from_slice(&(off as u16).to_be_bytes());
+    }
+    let count = names.len() as u16;
+    let mut out = Vec::new();
+    out.extend_from_slice(&0u16.to_be_bytes());
+    out.extend_from_slice(&count.to_be_bytes());
+    out.extend_from_slice(&(6 + 12 * count).to_be_bytes());
+    out.extend_from_slice(&recs);
+    out.extend_from_slice(&storage);
+    out
+}
+
 fn num_glyphs(disk: &Disk) -> Result<u16, String> {
     disk.tables
         .get(&tag_from_str("maxp"))
@@ -489,6 +562,10 @@ pub fn apply(disk: &mut Disk, s: &Surgery) -> Result<(), String> {
                 v.extend_from_slice(&gs[k % gs.len()].to_be_bytes());
             }
             disk.tables.insert(tag_from_str("cmap"), Rc::new(v));
+            Ok(())
+        }
+        Surgery::LongNames { variant } => {
+            disk.tables.insert(tag_from_str("name"), Rc::new(build_names(*variant)));
             Ok(())
         }
         Surgery::CompactHmtx { num_h_metrics } => {
